@@ -80,6 +80,9 @@ class UnitsAdapter:
                 cls = QM(it['name'], (Q,), {}, **kw)
                 self.types[it['name']] = cls
                 return 'accepted', cls
+            if act == 'baddef':
+                QM(it['name'], (Q,), {}, define_as=self.Term([(self.unit(it['of']), 1)]), ref_unit_symbol=it['ref'])
+                return 'accepted', None
             if act == 'derived':
                 term = None
                 for tn, e in it['def']:
@@ -301,6 +304,24 @@ class UnitsAdapter:
                     dev('unit-eq', 'Unit(%r) == Unit(%r) is %s, specification: %s' % (u1.symbol, u2.symbol, got, want))
                 elif got and (hash(u1) != hash(u2) or len({u1, u2}) != 1):
                     dev('unit-hash', 'Unit(%r) == Unit(%r) but their hashes differ' % (u1.symbol, u2.symbol))
+        # quantities in two different units of a type WITHOUT reference unit: no common scale, no converter - sums and
+        # order comparisons raise UnitConversionError, == is False (C03 / C04), however the units were defined
+        from quantity import UnitConversionError
+        for (s1, su1, u1) in present:
+            for (s2, su2, u2) in present:
+                if s1 >= s2 or su1['typ'] != su2['typ'] or stypes[su1['typ']]['ref'] != 'NONE' or u1 == u2:
+                    continue
+                q1, q2 = Q(3, u1), Q(2, u2)
+                for what, f in (('+', lambda: q1 + q2), ('-', lambda: q2 - q1), ('<', lambda: q1 < q2)):
+                    try:
+                        r = f()
+                        dev('noref-arith', '%s %s %s = %r, specification: UnitConversionError (no common scale)' % (q1, what, q2, r))
+                    except UnitConversionError:
+                        pass
+                    except Exception as exc:
+                        dev('noref-arith', '%s %s %s raises %s, specification: UnitConversionError' % (q1, what, q2, type(exc).__name__))
+                if q1 == q2 or not (q1 != q2):
+                    dev('noref-eq', '%s == %s, specification: not equal (no common scale)' % (q1, q2))
         for name, st in stypes.items():
             cls = self.types.get(name)
             if cls is None:
